@@ -41,8 +41,12 @@ def sentinel(x):
 
 
 # --------------------------------------------------------------------------
-def var_kwargs(spec):
+def var_kwargs(spec, from_end=True):
     kw = {'surface_number': spec['k']}
+    if from_end and spec.get('neg'):
+        # the surface addressed from the end of the lens (-2 = last gap /
+        # last surface before the image), as Python indexing allows
+        kw['surface_number'] = spec['k'] - spec['nsurf']
     for key in ('coeff_number', 'axis', 'wavelength'):
         if key in spec:
             kw[key] = spec[key]
@@ -137,8 +141,10 @@ class Sim:
         if f0 is None or not math.isfinite(f0):
             raise NotApplicable('merit function undefined at the start')
         self.optimizers = []       # (front, object, snapshot stack)
-        self.hist_targets = [o['target'] for o in self.hist['operands']]
-        self.hist_weights = [o['weight'] for o in self.hist['operands']]
+        self.ospecs = list(self.hist['operands'])
+        self.hist_targets = [o['target'] for o in self.ospecs]
+        self.hist_weights = [o['weight'] for o in self.ospecs]
+        self.stale = {}     # optimiser slot -> undo depth at the last rebuild
         # trigger of a recorded finding: an index variable on a medium that
         # is not an ideal (constant-index, non-absorbing) one.  Writing such
         # a variable replaces the medium by IdealMaterial(n), which changes
@@ -218,6 +224,18 @@ class Sim:
         z = [v for v in z if math.isfinite(v)]
         return 1e-9 * (1.0 + max(z + [self.w.model.zscale]))
 
+    def displaced(self):
+        """A solve (or an unbounded driver) has put the lens several
+        thousand times its own length away from surface 1.  Positions are
+        absolute, so every gap then carries the round-off of that distance,
+        and how much of it depends on the order of the writes that led
+        there: the objective is reproducible only to that noise."""
+        z = [abs(f(v)) for v in self.lens.surface_group.positions[1:]]
+        if self.w2:
+            z += [abs(f(v)) for v in self.w2.lens.surface_group.positions[1:]]
+        z = [v for v in z if math.isfinite(v)]
+        return bool(z) and max(z) > 3e3 * (1.0 + self.w.model.zscale)
+
     def snapshot(self):
         with quiet(), warnings.catch_warnings():
             warnings.simplefilter('ignore')
@@ -236,7 +254,7 @@ class Sim:
         spec = self.vspecs[j]
         with quiet():
             h = Variable(self.lens_of(spec), spec['type'], apply_scaling=False,
-                         **var_kwargs(spec))
+                         **var_kwargs(spec, from_end=False))
         return f(h.value)
 
     # ---------------------------------------------------------------- steps
@@ -371,6 +389,10 @@ class Sim:
             # function is not a function of the variables there
             self.probe('degenerate_zero_gap_at_solution')
             consistent = False
+        if consistent and self.displaced():
+            self.probe('objective_not_compared_on_displaced_lens')
+            self.check_bounds_and_pickups(key, ztol, inside)
+            return
         if not consistent:
             self.stats['faults']['driver_inconsistent_pair'] = \
                 self.stats['faults'].get('driver_inconsistent_pair', 0) + 1
@@ -503,7 +525,9 @@ class Sim:
                                 f'(fun={rf!r}, success='
                                 f'{getattr(res, "success", None)}) but the '
                                 f'variables read {vals}')
-        if drv.consistent(res.x, rf):
+        if drv.consistent(res.x, rf) and self.displaced():
+            self.probe('objective_not_compared_on_displaced_lens')
+        elif drv.consistent(res.x, rf):
             ss = self.merit()
             self.stats['oracle_checks'] += 1
             if ss is None or not (
@@ -543,6 +567,11 @@ class Sim:
             raise NotApplicable('no optimiser')
         slot = self.optimizers[i]
         opt = slot[1]
+        if len(getattr(opt, '_x', [])) <= self.stale.get(i, 0) and \
+                i in self.stale:
+            # what is left of this optimiser's history belongs to the
+            # variables of a problem that has since been cleared
+            raise NotApplicable('history predates the rebuilt problem')
         try:
             with quiet(), warnings.catch_warnings():
                 warnings.simplefilter('ignore')
@@ -608,6 +637,50 @@ class Sim:
                 slot[2] = [None] * len(slot[2])
         self.stats['state_changes'] += 1
         self.probe('hand_edit_between_runs')
+
+    def do_rebuild(self, st):
+        """The user clears the problem's variables and / or operands and
+        adds them again in another order (or without the last operand); the
+        optimiser objects made earlier are used again afterwards."""
+        did = False
+        with quiet(), warnings.catch_warnings():
+            warnings.simplefilter('ignore')
+            nv = len(self.vspecs)
+            r = st.get('vrot', 0) % nv if nv else 0
+            if nv >= 2 and r:
+                self.vspecs = self.vspecs[r:] + self.vspecs[:r]
+                self.problem.clear_variables()
+                for spec in self.vspecs:
+                    self.problem.add_variable(
+                        self.lens_of(spec), spec['type'],
+                        min_val=spec.get('min'), max_val=spec.get('max'),
+                        apply_scaling=bool(spec.get('scaled', True)),
+                        **var_kwargs(spec))
+                did = True
+            no = len(self.ospecs)
+            r = st.get('orot', 0) % no if no else 0
+            drop = bool(st.get('drop')) and no >= 2
+            if (no >= 2 and r) or drop:
+                order = list(range(no))
+                order = order[r:] + order[:r]
+                if drop:
+                    order = order[:-1]
+                self.ospecs = [self.ospecs[j] for j in order]
+                self.hist_targets = [self.hist_targets[j] for j in order]
+                self.hist_weights = [self.hist_weights[j] for j in order]
+                self.problem.clear_operands()
+                for spec, t_, w_ in zip(self.ospecs, self.hist_targets,
+                                        self.hist_weights):
+                    self.problem.add_operand(
+                        spec['type'], t_, w_,
+                        operand_input(self.lens_of(spec), spec))
+                did = True
+        if not did:
+            raise NotApplicable('nothing to reorder')
+        for i, slot in enumerate(self.optimizers):
+            if slot is not None:
+                self.stale[i] = len(getattr(slot[1], '_x', []))
+        self.probe('problem_rebuilt')
 
     def do_retarget(self, st):
         j = st['operand'] % len(self.problem.operands)
@@ -716,7 +789,7 @@ class Sim:
         try:
             with quiet(), warnings.catch_warnings():
                 warnings.simplefilter('ignore')
-                for j, spec in enumerate(self.hist['operands']):
+                for j, spec in enumerate(self.ospecs):
                     fn = operand_registry.get(spec['type'])
                     v = float(fn(**operand_input(self.lens_of(spec), spec)))
                     tot += (self.hist_weights[j] *
@@ -869,6 +942,10 @@ def gen_variable(ch, m):
         spec['min'], spec['max'] = lo, hi
         if ch.chance(0.1):
             spec[ch.pick(['min', 'max'])] = None
+    if t in ('thickness', 'radius', 'conic', 'tilt', 'decenter') and \
+            1 <= k <= n - 2 and ch.chance(0.12):
+        spec['neg'] = True
+        spec['nsurf'] = n
     return spec
 
 
@@ -1012,7 +1089,8 @@ def run_one(prop, run_seed, run_index, cfg):
     for _ in range(ch.randint(2, cfg.get('max_hist', 7))):
         k = ch.weighted([('optimize', 5), ('undo', 2.5), ('poke', 1),
                          ('bounds', 1), ('merit', 1), ('edit', 1),
-                         ('retarget', 0.7), ('compensate', 1.2)], tag='step')
+                         ('retarget', 0.7), ('compensate', 1.2),
+                         ('rebuild', 0.7)], tag='step')
         if k == 'optimize':
             bounded_all = all(v.get('min') is not None and
                               v.get('max') is not None for v in variables)
@@ -1068,6 +1146,10 @@ def run_one(prop, run_seed, run_index, cfg):
             steps.append({'op': 'edit', 'edit': {
                 'op': kind, 'k': kk,
                 'v': ch.rounded(cur + ch.uniform(-1, 1) * delta, 6)}})
+        elif k == 'rebuild':
+            steps.append({'op': 'rebuild', 'vrot': ch.randint(0, 2),
+                          'orot': ch.randint(0, 2),
+                          'drop': ch.chance(0.3)})
         elif k == 'retarget':
             st = {'op': 'retarget', 'operand': ch.randint(0, 3)}
             if ch.chance(0.7):
